@@ -79,6 +79,22 @@ def run_symx(prop, tier, seed, spec):
         part["ok"] = False
         part["inconclusive"].append("numerics self-test failed (symbolic operators disagree with the real cosmwasm-std): %s" % json.dumps(st)[:600])
         return part
+    # translator validation on the repository's own tests (run in thorough and by setup; quick reuses
+    # the cached result when it belongs to the current sources)
+    try:
+        import overlay_suite
+        if tier == "thorough":
+            suite = overlay_suite.ensure()
+        else:
+            suite = overlay_suite.cached()
+    except Exception as e:  # noqa
+        suite = {"ok": False, "why": "overlay suite could not run: %s" % e}
+    if suite is not None:
+        part["repo_tests_on_symbolic_std"] = {k_: suite.get(k_) for k_ in ("ok", "tests_passed", "tests_failed_only_on_overlay", "wall_s", "cached", "why", "what")}
+        if not suite.get("ok"):
+            part["ok"] = False
+            part["inconclusive"].append("the repository's own tests do not give the same results on the symbolic-number cosmwasm-std: %s" % json.dumps(suite)[:800])
+            return part
     out = os.path.join(gen.CACHE, "out-%s-%s-%d.json" % (prop, tier, os.getpid()))
     threads = int(os.environ.get("SYMX_THREADS", str(NCPU)))
     timeout_ms = spec.get("timeout_ms", {}).get(tier, 10000)
@@ -134,6 +150,7 @@ def run_symx(prop, tier, seed, spec):
             "solver_timeout_ms": timeout_ms,
             "threads": threads,
             "numerics_selftest": st,
+            "repo_tests_on_symbolic_std": part.get("repo_tests_on_symbolic_std"),
         }
     )
     # ---- counterexamples: dedupe, replay on the real build
